@@ -934,7 +934,7 @@ func TestCheck(t *testing.T) {
 		r.Nontrivial("replay-b")
 		return
 	}
-	n := r.N(64, 16000)
+	n := r.N(64, 6400)
 	rng := r.Rand("configs")
 	shard, _ := r.Shard()
 	maxPW := r.Pick(4, 16)
